@@ -125,11 +125,17 @@ def run_update(ctx, phase="olivine", fabric="olivine_A", regime="matrix_dislocat
     R.F0 = symarr("F0", (3, 3))
     R.t0, R.t1 = alg.sym("tstart"), alg.sym("tend")
 
+    R.callback_arrays = []      # every array handed to the update by a user callable (kept alive: their identities must stay unique)
+
     def Lfun(I_, t, x):
-        return mkarr([[alg.Fn("L", lift(t), tuple(lift(c) for c in x.flat), i, j) for j in range(3)] for i in range(3)])
+        a_ = mkarr([[alg.Fn("L", lift(t), tuple(lift(c) for c in x.flat), i, j) for j in range(3)] for i in range(3)])
+        R.callback_arrays.append(("get_velocity_gradient", a_, a_.copy()))
+        return a_
 
     def xfun(I_, t):
-        return mkarr([alg.Fn("x", lift(t), k) for k in range(3)])
+        a_ = mkarr([alg.Fn("x", lift(t), k) for k in range(3)])
+        R.callback_arrays.append(("get_position", a_, a_.copy()))
+        return a_
     R.Lfun, R.xfun = Native("get_velocity_gradient", Lfun), Native("get_position", xfun)
     upd = I.getattr(m, "update_orientations")
     kw = dict(kwargs or {})
@@ -141,6 +147,22 @@ def run_update(ctx, phase="olivine", fabric="olivine_A", regime="matrix_dislocat
         R.exc = r.exc
         R.result = None
     return R
+
+
+def callback_array_writes(R):
+    """In-place writes into arrays that a user callable returned (the callable may return the same stored array on every call, so such a
+    write changes the user's velocity-gradient history): list of (callable, kind of event, location)."""
+    ids = {id(a): name for name, a, _ in R.callback_arrays}
+    out = []
+    for e in R.I.trace:
+        if e.kind in ("store", "inplace"):
+            hit = [d for d in e.data if isinstance(d, int) and d in ids]
+            if hit:
+                out.append((ids[hit[0]], e.kind, e.loc))
+    for name, a, saved in R.callback_arrays:
+        if any(keyof(x) != keyof(y) for x, y in zip(a.flat, saved.flat)):
+            out.append((name, "contents changed", ""))
+    return out
 
 
 def history_mutations(R, start=0):
